@@ -315,6 +315,7 @@ def run(tier, seed, out, drv, facts):
     # typing.TypeVar instances): a default does not restrict anything
     check_pep696_typevars(out, ucats[:6])
     any_partial_duck_cases(out, ucats[:6])
+    same_name_category_cases(out)
     nested_after_transparent(out)
     # ---- scalars
     sspecs, smeta = [], []
@@ -400,6 +401,41 @@ def any_partial_duck_cases(out, cats):
                         return
 
 
+def same_name_category_cases(out):
+    """categories are told apart by WHAT THEY ARE, not by what they are called: a project's own `Float` / `Int` (other
+    dtype lists, same `__name__`) nested over the library's annotation of that name narrows like any other category, and an
+    empty intersection is a ValueError"""
+    import jaxtyping as jt
+
+    Duck = usercats.Duck
+
+    def make(name, dtypes):
+        return type(name, (jt.AbstractDtype,), {"dtypes": dtypes})
+
+    cases = [("Float", ["float32", "float64"], jt.Float), ("Float", ["float16"], jt.Float), ("Int", ["int32"], jt.Int), ("Shaped", ["float32", "int8"], jt.Float),
+             ("Float", ["int32"], jt.Float), ("Num", ["float32"], make("Num", ["float32", "int32"]))]
+    for name, dtypes, inner_cat in cases:
+        Local = make(name, dtypes)
+        inner = inner_cat[Duck, "a"]
+        flat_inner = makeimpl.vector(inner_cat[Duck, "b a"])
+        try:
+            nested = Local[inner, "b"]
+            nv = makeimpl.vector(nested)
+        except ValueError:
+            nv = "ValueError"
+        fv = makeimpl.vector(Local[Duck, "b a"])
+        # the flat equivalent: accepted by both categories
+        want = "".join("1" if x == "1" and y == "1" else ("0" if "E" not in (x, y) and "A" not in (x, y) else "E") for x, y in zip(fv, flat_inner))
+        empty = "1" not in want
+        out.case(("same-name-category", name, tuple(dtypes), inner_cat.__name__), True, sample={"outer": f"{name}{dtypes}", "inner": inner_cat.__name__, "nested": nv[:40], "flat": want[:40]})
+        if empty and nv != "ValueError":
+            out.violation("same-name-category:empty", f"a category called {name} with dtypes {dtypes} nested over {inner_cat.__name__}[Duck, 'a'] shares no dtype with it: building must "
+                          f"raise ValueError, but an annotation was built (accepts {nv.count('1')} of the probe values)", {"same_name_category": [name, dtypes]})
+        elif not empty and nv != want:
+            out.violation("same-name-category", f"a category called {name} with dtypes {dtypes} nested over {inner_cat.__name__}[Duck, 'a'] gives {nv[:60]} on the probe values; "
+                          f"the flat equivalent (both categories over 'b a') gives {want[:60]}", {"same_name_category": [name, dtypes]})
+
+
 def check_pep696_typevars(out, cats):
     try:
         import typing_extensions as te
@@ -451,6 +487,8 @@ def replay(rep, out, drv, facts):
         check_aliases(out)
     elif "nested_after_transparent" in rep:
         nested_after_transparent(out)
+    elif "same_name_category" in rep:
+        same_name_category_cases(out)
     elif "any_partial" in rep:
         any_partial_duck_cases(out, [rep["cat"]])
     elif "pep696" in rep:
